@@ -178,6 +178,13 @@ pub fn run_c10(ctx: &Ctx, rep: &mut Report) {
     if crate::props::wide::maybe_run(ctx, rep, crate::props::wide::Role::NoEffect, 4, 8) {
         return;
     }
+    if ctx.shard == 13 && (ctx.only_case.is_none() || ctx.only_case == Some(crate::props::huge::HUGE_CASE + 1)) {
+        crate::guard::case_begin(crate::props::huge::HUGE_CASE + 1);
+        crate::props::huge::v3_limit_probe(ctx, rep);
+        if ctx.only_case.is_some() {
+            return;
+        }
+    }
     let mut i = 0;
     while let Some(case) = ctx.next_case(&mut i) {
         let mut rng = ctx.case_rng(case);
@@ -311,6 +318,14 @@ fn cycle_steps(template: u64, p: &CycleParams) -> Vec<Step> {
     v
 }
 
+/// (root stream size, free mini sectors below it) of an image.
+fn mini_state(bytes: &[u8]) -> Option<(u64, Vec<u32>)> {
+    let img = refparse::parse(bytes).ok()?;
+    let root = img.entries.first()?.size;
+    let free = img.minifat.iter().take((root / 64) as usize).enumerate().filter(|(_, &x)| x == refparse::FREE).map(|(i, _)| i as u32).collect();
+    Some((root, free))
+}
+
 struct CycleParams {
     size: u64,
     keep_len: u64,
@@ -357,7 +372,7 @@ fn c15_case(ctx: &Ctx, rep: &mut Report, rng: &mut Rng, version: Version, done: 
     // megabyte-sized cycles (thousands of sectors freed and re-used per repetition,
     // growth steps above 1 MiB) in a few cases
     let mega = rng.chance(1, if ctx.quick() { 30 } else { 12 });
-    let keep_len = if mega { *rng.pick(&[4_200_000u64, 4_718_592, 6_000_000, 1_100_000]) } else { *rng.pick(&[0u64, 10, 64, 100, 1000, 4000, 4095, 4096, 5000, 9000]) };
+    let keep_len = if mega { *rng.pick(&[4_200_000u64, 4_718_592, 6_000_000, 1_100_000, 7_600_000]) } else { *rng.pick(&[0u64, 10, 64, 100, 1000, 4000, 4095, 4096, 5000, 9000]) };
     run_step(&mut sess, Step::HOpen { slot: 6, path: "/keep".into(), how: OpenHow::Create }, done, rep)?;
     run_step(&mut sess, Step::HWriteTag { slot: 6, len: keep_len as usize, tag: 3 }, done, rep)?;
     run_step(&mut sess, Step::HClose { slot: 6 }, done, rep)?;
@@ -375,13 +390,49 @@ fn c15_case(ctx: &Ctx, rep: &mut Report, rng: &mut Rng, version: Version, done: 
     let container = if params.size < 4096 { "mini" } else { "regular" };
     let before = sess.model.dump();
     let mut lens: Vec<usize> = Vec::new();
+    let mut frees: Vec<(usize, usize, u64)> = Vec::new();
     let reopen_in_cycle = rng.chance(1, 4);
     if reopen_in_cycle {
         rep.count("cycles_with_reopen");
     }
     for r in 0..reps {
         for step in cycle_steps(template, &params) {
+            // "Space released ... is reused by later allocations": from the second repetition
+            // on, whenever a write extends the file, the FAT as stored at that moment must
+            // not list a free sector; and when the mini stream grows during a step, no mini
+            // sector that was free before may still be free afterwards
+            let watch = r >= 1;
+            let mini_before = if watch { mini_state(&sess.shared.bytes()) } else { None };
+            if watch {
+                sess.shared.watch_growth(true);
+            }
+            let what = format!("{:?}", step);
             run_step(&mut sess, step, done, rep)?;
+            if watch {
+                if let Some((off, before)) = sess.shared.take_growth_snapshot() {
+                    if let Ok(img) = refparse::parse(&before) {
+                        let free: Vec<usize> = img.fat.iter().take(img.nsect).enumerate().filter(|(_, &x)| x == refparse::FREE).map(|(i, _)| i).collect();
+                        rep.count("growth_events_inspected");
+                        if !free.is_empty() {
+                            return Err((format!("released space not reused | template{} | the file was extended although free sectors existed", template), format!("{}: repetition {} step {what}: a write at offset {off} extended the {}-byte file while its FAT listed {} free sector(s) (e.g. sector {})", vname(version), r + 1, before.len(), free.len(), free[0])));
+                        }
+                    }
+                }
+                sess.shared.watch_growth(false);
+                if let (Some((root_b, free_b)), Some((root_a, _))) = (mini_before, mini_state(&sess.shared.bytes())) {
+                    if root_a > root_b && !free_b.is_empty() {
+                        // were the formerly free mini sectors used up by this step?
+                        let after = sess.shared.bytes();
+                        if let Ok(img) = refparse::parse(&after) {
+                            let still: Vec<u32> = free_b.iter().cloned().filter(|&m| img.minifat.get(m as usize) == Some(&refparse::FREE)).collect();
+                            rep.count("mini_growth_events_inspected");
+                            if !still.is_empty() {
+                                return Err((format!("released space not reused | template{} | the mini stream was extended although free mini sectors existed", template), format!("{}: repetition {} step {what}: the mini stream grew from {root_b} to {root_a} bytes while {} mini sector(s) that were free before the step are still free (e.g. mini sector {})", vname(version), r + 1, still.len(), still[0])));
+                            }
+                        }
+                    }
+                }
+            }
         }
         if reopen_in_cycle {
             // closing and reopening the file is part of many real cycles; it does not change
@@ -397,6 +448,15 @@ fn c15_case(ctx: &Ctx, rep: &mut Report, rng: &mut Rng, version: Version, done: 
         }
         sess.check_against_model(false).map_err(|w| ("harness-or-C01: dump | model | mismatch".to_string(), w))?;
         lens.push(sess.shared.len());
+        if std::env::var_os("CFBMON_C15_TRACE").is_some() {
+            let b = sess.shared.bytes();
+            if let Ok(img) = refparse::parse(&b) {
+                let free_fat = img.fat.iter().take(img.nsect).filter(|&&x| x == refparse::FREE).count();
+                let root = img.entries.first().map(|e| e.size).unwrap_or(0);
+                let free_mini = img.minifat.iter().take((root / 64) as usize).filter(|&&x| x == refparse::FREE).count();
+                frees.push((free_fat, free_mini, root));
+            }
+        }
         let _ = r;
     }
     rep.count(&format!("cycles.template{}.{}", template, container));
@@ -409,6 +469,9 @@ fn c15_case(ctx: &Ctx, rep: &mut Report, rng: &mut Rng, version: Version, done: 
     // order; from then on the size must not move (a leak grows without bound).
     if lens[1] != lens[0] {
         rep.count("size_changed_between_repetition_1_and_2");
+        if std::env::var_os("CFBMON_C15_TRACE").is_some() {
+            eprintln!("C15TRACE {} template {} size {} keep {} delta {} reopen {} lens {:?} (free FAT cells, free mini sectors, root size) {:?}", vname(version), template, params.size, params.keep_len, params.delta, reopen_in_cycle, &lens[..lens.len().min(5)], &frees[..frees.len().min(5)]);
+        }
     }
     if lens[2..].iter().any(|&l| l != lens[1]) {
         let per: Vec<String> = growth.iter().map(|g| format!("{g:+}")).collect();
